@@ -558,7 +558,7 @@ pub fn run_lane(id: &str, lane: &Lane, seed: u64) -> LaneResult {
 			let tdir = root.join("target").join("cov");
 			let log = dir.join("cov-build.log");
 			let mut c = Command::new("cargo");
-			c.args(["+nightly", "build", "--offline", "-q"]).current_dir(harness_dir()).env("RUSTFLAGS", "-Cinstrument-coverage").env("CARGO_TARGET_DIR", &tdir).env("CARGO_NET_OFFLINE", "true");
+			c.args(["+nightly", "build", "--offline", "-q"]).current_dir(harness_dir()).env("RUSTFLAGS", "-Cinstrument-coverage").env("LLVM_PROFILE_FILE", dir.join("cov-build-%p-%m.profraw")).env("CARGO_TARGET_DIR", &tdir).env("CARGO_NET_OFFLINE", "true");
 			let (code, _) = run_with_timeout(c, &log, Duration::from_secs(1800));
 			let sysroot = Command::new("rustc").args(["+nightly", "--print", "sysroot"]).output().ok().map(|o| String::from_utf8_lossy(&o.stdout).trim().to_string()).unwrap_or_default();
 			let tools = PathBuf::from(sysroot).join("lib/rustlib/x86_64-unknown-linux-gnu/bin");
